@@ -367,6 +367,23 @@ def nontrivial(io):
     return nr >= 1 and nc >= 1 and nr * nc >= 2
 
 
+def dominate(case, rng):
+    res = case["response"]["result"]
+    counts = res["counts"]
+    data = res.get("measures", {}).get("count", {}).get("data")
+    idxs = [i for i, c in enumerate(counts) if isinstance(c, (int, float)) and c > 0
+            and (data is None or (isinstance(data[i], (int, float)) and data[i] > 0))]
+    if not idxs:
+        return
+    i = rng.choice(idxs)
+    big = 2 ** rng.randint(20, 24)
+    counts[i] = counts[i] + big
+    if data is not None:
+        data[i] = data[i] + big
+    res["n"] = res.get("n", 0) + big
+    case["dominant"] = True
+
+
 def evaluate(cases, rep, tag="cases"):
     ios, terms, kept = [], [], []
     for case in cases:
@@ -386,6 +403,8 @@ def evaluate(cases, rep, tag="cases"):
         rep.count_case(cc.replayable(case), nt)
         rep.dist("x".join(io["types"]))
         rep.dist("weighted" if case.get("weighted") else "unweighted")
+        if case.get("dominant"):
+            rep.dist("dominant-cell(2^20..2^24 respondents in one cell)")
         if any(len(s[1]) > 0 for d in io["subs"] for s in d):
             rep.dist("has_difference")
         if nt:
@@ -411,6 +430,15 @@ def run(tier, seed):
     n_cases = 300 if tier == "quick" else 5000
     rng = random.Random(seed)
     cases = [cc.gen_slice_case(rng, k) for k in range(n_cases)]
+    # DOMINANT-CELL stream (after seeded change C03-5: proportions within 1e-5 of 1 snapped to exactly
+    # 1.0, invisible below ~1e5 respondents): in one case out of eight one non-zero cell of the payload
+    # gets 2^20..2^24 further (weighted and unweighted) respondents, so some proportion is 1 - O(1e-6)
+    # and every other proportion of its row / column / table is O(1e-6) - both far outside the 1e-9
+    # comparison tolerance yet inside numpy's default `isclose` window.
+    drng = random.Random(seed * 7919 + 13)
+    for case in cases:
+        if drng.random() < 0.125 and not case.get("valid_counts"):
+            dominate(case, drng)
     coq_s, nterms = evaluate(cases, rep)
     rep.cov["rule"] = (
         "random.Random(seed): surveys (0-40 respondents, dyadic weights incl. 0, missing categories anywhere, "
